@@ -8,7 +8,7 @@ for i in sorted(os.listdir(f'{ROOT}/seeded')):
     if not os.path.isfile(p): continue
     m=json.load(open(p))
     det=m.get('detected_by_quick',[]); miss=m.get('not_detected_by_quick',[])
-    rows.append(f"| {i} | {m['property']} | {m.get('what','').replace('|','/')} | {m.get('needs_to_manifest','').replace('|','/')} | {' '.join(det) or '-'} | {' '.join(miss) or '-'} | {m.get('strengthened','')} |")
+    rows.append(f"| {i} | {m['property']} | {m.get('what','').replace('|','/')} | {m.get('needs_to_manifest','').replace('|','/')} | {' '.join(det) or '-'} | {' '.join(miss) or '-'} | {(m.get('strengthened','') or ('NOT CAUGHT BY ITS TARGET - ' + m['not_caught_reason'] if m.get('not_caught_reason') else '')).replace('|','/')} |")
 table="\n".join(["| id | targets | change | needs, in order to manifest | caught by (quick) | run but silent | what was strengthened to catch it |","|---|---|---|---|---|---|---|"]+rows)
 s=open(f'{ROOT}/DESIGN.md').read()
 a=s.index('<!-- SEEDED-TABLE-BEGIN -->'); b=s.index('<!-- SEEDED-TABLE-END -->')
